@@ -115,6 +115,7 @@ const (
 	sAccess
 	sExit
 	sDyn
+	sSync // wg-done / wg-wait / close of a struct field (lifecycle rule J)
 )
 
 type site struct {
@@ -1625,6 +1626,13 @@ func (w *walker) call(c *ast.CallExpr, deferred bool) {
 					}
 				}
 			case "recover", "panic", "append", "len", "cap", "make", "new", "print", "println", "close", "min", "max", "complex", "real", "imag":
+				if b.Name() == "close" && len(c.Args) == 1 {
+					if fs, ok := ast.Unparen(c.Args[0]).(*ast.SelectorExpr); ok {
+						if v, ok := info.Uses[fs.Sel].(*types.Var); ok && v.IsField() && a.fieldOwner[v] != nil {
+							w.record(site{kind: sSync, held: w.st.held.clone(), desc: "close " + namedName(a.fieldOwner[v]) + "." + v.Name(), pos: c.Pos()})
+						}
+					}
+				}
 				if !deferred {
 					for _, arg := range c.Args {
 						w.expr(arg)
@@ -1710,6 +1718,19 @@ func (w *walker) call(c *ast.CallExpr, deferred bool) {
 	if strings.HasPrefix(desc, "dynamic:") {
 		w.record(site{kind: sDyn, held: w.st.held.clone(), desc: desc, pos: c.Pos()})
 	}
+	if ext && (strings.HasPrefix(desc, "ext:(*sync.WaitGroup).Wait") || strings.HasPrefix(desc, "ext:(*sync.WaitGroup).Done")) {
+		if sel, ok := c.Fun.(*ast.SelectorExpr); ok {
+			if fs, ok := ast.Unparen(sel.X).(*ast.SelectorExpr); ok {
+				if v, ok := info.Uses[fs.Sel].(*types.Var); ok && v.IsField() && a.fieldOwner[v] != nil {
+					kind := "wg-wait "
+					if strings.HasSuffix(desc, "Done") {
+						kind = "wg-done "
+					}
+					w.record(site{kind: sSync, held: w.st.held.clone(), desc: kind + namedName(a.fieldOwner[v]) + "." + v.Name(), pos: c.Pos()})
+				}
+			}
+		}
+	}
 	if ext && strings.HasPrefix(desc, "ext:(*sync.WaitGroup).Wait") {
 		w.record(site{kind: sChan, held: w.st.held.clone(), desc: "wait sync.WaitGroup", unbuf: true, pos: c.Pos()})
 	}
@@ -1790,6 +1811,8 @@ func main() {
 		a.analyze(a.order[i])
 	}
 	res := a.summarize()
+	res.sharedPaths = a.sharedPathSites()
+	res.joins = a.goroutineJoins()
 	if len(fatals) > 0 {
 		sort.Strings(fatals)
 		for _, f := range fatals {
